@@ -5,12 +5,27 @@ LEVEL_NOTE = ('bounded model checking of the real C API entry points on the real
               'memory safety = CBMC pointer/bounds checks on every access of the translated code, termination = unwinding assertions, '
               'no exception/abort = __cxa_throw/abort are assertion failures')
 
+RT_UNWIND = dict(INIT_UNWIND)
+RT_UNWIND.update({'pin_instrument': 40, 'realTime_panic': 130, '_ZN11OPNMIDIplay5panic': 130, '_ZN4OPN26noteOnEmd': 48,
+                  'realTime_NoteAfterTouch': 130})
+RT_ASSUME = ['banks are forged map slots: melodic bank 0 and percussion bank 0 with pinned entries (programs 0,5 / keys 35,60): concrete '
+             'single-voice timbres, symbolic blank flag, drum key, velocity offset, key-on/off times',
+             'note-on keys and program numbers inside k-step sequences are enumerated over the pinned entries; channels over {0, 9, 16, 255}']
+
 OBLIGATIONS = []
 NAMES = {3: 'channelAfterTouch', 5: 'patchChange', 8: 'bankChangeLSB', 9: 'bankChangeMSB', 10: 'bankChange'}
 for sel, nm in sorted(NAMES.items()):
     OBLIGATIONS.append(Ob('C03.rt.guard.' + nm, 'C03', 'ir/c03_rt.cpp', engine='ir', entry='harness_rt',
                           defines=['STEPS=1', 'CHAN_SYMBOLIC', 'SEL_LO=%d' % sel, 'SEL_HI=%d' % sel],
-                          unwind=20, unwind_funcs=INIT_UNWIND, repo_tus=PLAYER_TUS, ir_opts=player_ir_opts(),
+                          unwind=20, unwind_funcs=RT_UNWIND, unwindset={'memcmp.0': 40}, repo_tus=PLAYER_TUS, ir_opts=player_ir_opts(),
                           timeout={'quick': 600, 'thorough': 1800},
                           desc='opn2_rt_%s with every uint8 channel and argument value: no out-of-bounds access' % nm,
                           bounds='one call after opn2_init; all 256 channel values, all argument values', stubs=PLAYER_STUBS))
+
+for k, tiers in ((1, ('quick', 'thorough')), (2, ('quick', 'thorough')), (3, ('thorough',))):
+    OBLIGATIONS.append(Ob('C03.rt.k%d' % k, 'C03', 'ir/c03_rt.cpp', engine='ir', entry='harness_rt', defines=['STEPS=%d' % k],
+                          unwind=20, unwind_funcs=RT_UNWIND, unwindset={'memcmp.0': 40}, repo_tus=PLAYER_TUS, ir_opts=player_ir_opts(),
+                          tiers=tiers, timeout={'quick': 900, 'thorough': 3000}, termination=True,
+                          desc='every sequence of %d real-time API calls (13 entry points, symbolic arguments) after opn2_init: memory-safe, no throw/abort, all loops terminate within the unwinding bounds' % k,
+                          bounds='%d calls; channels {0,9,16,255}; keys/programs of the pinned instruments; all other argument bytes symbolic; 2 chips' % k,
+                          assumptions=RT_ASSUME, stubs=PLAYER_STUBS))
